@@ -178,6 +178,16 @@ def run(seed=0, tier="quick", aimed=None):
         e = impl.relerr(w[(slice(None),) + I], (w0 + c * want)[(slice(None),) + I]); cases += 1
         if e > tol:
             return fail("update_vorticity_from_velocity_forcing_3d", e, extra)
+        cs2 = [_quad(r, 3) for _ in range(3)]
+        F2 = np.array([_eval3(cc_, X, Y, Z) for cc_ in cs2])
+        D2 = [_d3(cc_, X, Y, Z) for cc_ in cs2]
+        want2 = np.array([D2[2][1] - D2[1][2], D2[0][2] - D2[2][0], D2[1][0] - D2[0][1]])
+        w = r.normal(size=(3, nz, ny, nx)); w0 = w.copy()
+        spne.gen_update_vorticity_from_penalised_velocity_pyst_kernel_3d(real_t=np.float64)(
+            vorticity_field=w, penalised_velocity_field=F, velocity_field=F2, prefactor=c / (2 * h))
+        e = impl.relerr(w[(slice(None),) + I], (w0 + c * (want - want2))[(slice(None),) + I]); cases += 1
+        if e > tol:
+            return fail("update_vorticity_from_penalised_velocity_3d", e, {**extra, "coeffs_velocity": [impl.tolist(cc_) for cc_ in cs2]})
         om = r.normal(size=(3, nz, ny, nx))
         out3 = np.zeros((3, nz, ny, nx))
         spne.gen_vorticity_stretching_flux_pyst_kernel_3d(real_t=np.float64)(
